@@ -307,13 +307,16 @@ func makeCreator(mspID string, certDER []byte) []byte {
 	return b
 }
 
-func NewECIdentity(name, ou string) *Identity {
+func NewECIdentity(name, ou string) *Identity { return NewECIdentityOUs(name, []string{ou}) }
+
+// NewECIdentityOUs: a certificate with any list of organisational units (none at all is legal X.509).
+func NewECIdentityOUs(name string, ous []string) *Identity {
 	priv, err := ecdsa.GenerateKey(elliptic.P256(), rand.Reader)
 	if err != nil {
 		panic(err)
 	}
 	tmpl := &x509.Certificate{SerialNumber: big.NewInt(int64(len(name)) + 7),
-		Subject:   pkix.Name{CommonName: name, OrganizationalUnit: []string{ou}, Organization: []string{"verif"}},
+		Subject:   pkix.Name{CommonName: name, OrganizationalUnit: ous, Organization: []string{"verif"}},
 		NotBefore: time.Unix(1600000000, 0), NotAfter: time.Unix(2600000000, 0), KeyUsage: x509.KeyUsageDigitalSignature}
 	der, err := x509.CreateCertificate(rand.Reader, tmpl, tmpl, &priv.PublicKey, priv)
 	if err != nil {
